@@ -57,11 +57,17 @@ func (i *interpreter) hashBytes(alg string, data []value) []value {
 	app := cx.Apply(name, 8*size, in)
 	// collision freedom w.r.t. earlier applications of the same function
 	for _, prev := range i.ps.hashApps {
-		if prev.name == name && prev.in != in {
+		if prev.alg != alg || prev.in == in {
+			continue
+		}
+		if prev.name == name {
 			i.assume(cx.Implies(cx.Eq(prev.app, app), cx.Eq(prev.in, in)))
+		} else {
+			// inputs of different length never collide either
+			i.assume(cx.Not(cx.Eq(prev.app, app)))
 		}
 	}
-	i.ps.hashApps = append(i.ps.hashApps, hashApp{name: name, in: in, app: app})
+	i.ps.hashApps = append(i.ps.hashApps, hashApp{alg: alg, name: name, in: in, app: app})
 	out := make([]value, size)
 	for k := 0; k < size; k++ {
 		hi := 8*size - 1 - 8*k
